@@ -326,6 +326,10 @@ class Eval:
             if tag == "as":
                 inner, variant = t[1], t[2]
                 return self.payload(inner, variant, name)
+            if tag == "field" and t[2] in getattr(self.facts, "group_fields", ()):
+                # a field of a grouping sub-struct reached through the whole group (`self.counts` handed to a method of
+                # the group): the flattened field of the owner (mir.flatten_group_structs)
+                return ("field", t[1], t[2] + "." + name)
             return ("field", t, name)
         if k == "as":
             variant = e[1]
